@@ -298,12 +298,26 @@ func Check(res *Result) *ReadBack {
 			mode = 'v' // allocated, never written
 		}
 		rb.Queries = append(rb.Queries, Query{ref, mode, k})
+		if _, ok := want[ref]; !ok && res.UnsureRefs[ref] && ref.Generation() != 0 {
+			// the object that has the number (one of the Writer's own, generation 0)
+			rb.Queries = append(rb.Queries, Query{pdf.NewReference(n, 0), 'k', 0})
+		}
 		if _, ok := want[ref]; ok && probes < 3 {
 			probes++
 			rb.Queries = append(rb.Queries, Query{pdf.NewReference(n, gens[n]+1), 'v', 0})
 		}
 	}
 
+	unsureNums := map[uint32]bool{}
+	for ref := range res.UnsureRefs {
+		unsureNums[ref.Number()] = true
+	}
+	show := func(o pdf.Native) string {
+		if _, isStream := o.(*pdf.Stream); isStream {
+			return "a stream"
+		}
+		return pdf.AsString(o)
+	}
 	for _, q := range rb.Queries {
 		got, err := r.Get(q.Ref, true)
 		w := want[q.Ref]
@@ -361,11 +375,11 @@ func Check(res *Result) *ReadBack {
 		switch {
 		case w == nil:
 			if res.RefusedRefs[q.Ref] && got != nil {
-				fail(SigTrace, "the call that was to write %v was refused (%v), yet the file has an object under that number: %s", q.Ref, res.RefusedText, pdf.AsString(got))
-			} else if res.UnsureRefs[q.Ref] {
+				fail(SigTrace, "the call that was to write %v was refused (%v), yet the file has an object under that number: %s", q.Ref, res.RefusedText, show(got))
+			} else if unsureNums[q.Ref.Number()] {
 				// refused, and the number may belong to an object the Writer made for itself
 			} else if _, user := gens[q.Ref.Number()]; (user || q.Mode == 'v') && got != nil {
-				fail("unwritten-not-null", "%v was never written (under this generation) and reads %s", q.Ref, pdf.AsString(got))
+				fail("unwritten-not-null", "%v was never written (under this generation) and reads %s", q.Ref, show(got))
 			}
 		case w.KindOnly:
 			if !isStream {
